@@ -319,8 +319,18 @@ def run(repo, rep):
         e = comparison(ast.parse("lr.end_time < curr_time", mode="eval").body)
         ok = bool(cm) and cm[0] == e[0] and cm[1] <= e[1]
     rep.check(ok, "C05-d'", f"{G}:GreedyAllocator.allocate_live_ranges", "a range is freed only when it ended strictly before the current time", norm(fr[0].test) if fr else "")
-    order = [s for s in ast.walk(f) if isinstance(s, ast.Call) and norm(s) == "lrs.add((lr.start_time, -lr.end_time, lr))"]
-    rep.check(len(order) == 1 and any(norm(s) == "lrs = sorted(lrs)" for s in f.body), "C05-d'", f"{G}:GreedyAllocator.allocate_live_ranges", "ranges are placed in start-time order (frees are then sound)", "")
+    # the placement loop runs over the live ranges sorted by (start time, ...) and takes the current time from the first key component
+    firsts = []
+    for s_ in ast.walk(f):
+        if isinstance(s_, ast.Call) and isinstance(s_.func, ast.Attribute) and s_.func.attr == "add" and str(norm(s_.func.value)) == "lrs" and s_.args and isinstance(s_.args[0], ast.Tuple):
+            firsts.append(str(norm(s_.args[0].elts[0])))
+        if isinstance(s_, ast.Call) and call_name(s_) == "sorted" and s_.args and isinstance(s_.args[0], (ast.GeneratorExp, ast.ListComp)) and isinstance(s_.args[0].elt, ast.Tuple):
+            firsts.append(str(norm(s_.args[0].elt.elts[0])))
+    srt_ = any(isinstance(s_, ast.Assign) and str(norm(s_.targets[0])) == "lrs" and isinstance(s_.value, ast.Call) and call_name(s_.value) == "sorted" and not s_.value.keywords for s_ in f.body)
+    loops_ = [l_ for l_ in f.body if isinstance(l_, ast.For) and str(norm(l_.iter)) == "lrs" and isinstance(l_.target, ast.Tuple)]
+    ok = srt_ and firsts == ["lr.start_time"] and len(loops_) == 1 and str(norm(loops_[0].target.elts[0])) == "curr_time"
+    rep.check(ok, "C05-d'", f"{G}:GreedyAllocator.allocate_live_ranges", "ranges are placed in start-time order and the current time is that start time (frees are then sound)",
+              f"sort key starts with {firsts}, loop target {str(norm(loops_[0].target)) if loops_ else '?'}")
     # (5) LiveRange.overlaps_address
     f = lr.func("LiveRange.overlaps_address")
     t = [n for n in ast.walk(f) if isinstance(n, ast.If)]
